@@ -134,7 +134,7 @@ func randCase(r *RNG, maxLen int, fns []int) algoCase {
 	if r.Chance(1, 15) { // whitespace-heavy
 		for i := range text {
 			if r.Bool() {
-				text[i] = Pick(r, []int{' ', '\t', 0xa0, 0x2003})
+				text[i] = Pick(r, alphaSpace)
 			}
 		}
 	}
